@@ -823,6 +823,10 @@ func ruleInitOrder(c *Ctx) {
 			}
 		}
 		c.check(okStore, key+":stored-config", init.Pos(), "the defaults-completed, verified value is stored in the parser", "the parser does not store the defaults-completed configuration after Verify succeeded")
+		// the buffer configuration the ParserBuffer is initialised with must agree with the one the
+		// parser reports: either it is derived from the config after SetDefaults, or the config's
+		// SetDefaults is a pure pass-through of BufConfig.SetDefaults for the buffer fields
+		c.bufConfigAgreement(p, init, setDef, key)
 		// ParserConfig returns its address
 		if pc := c.method(p.T, "ParserConfig"); pc != nil {
 			okPC := false
@@ -859,4 +863,68 @@ func ruleInitOrder(c *Ctx) {
 			c.check(okNP, "lz."+p.Cfg.Obj().Name()+":NewParser", np.Pos(), "NewParser returns (nil, err) when init fails", "NewParser does not return (nil, err) when init reports an error")
 		}
 	}
+}
+
+
+// bufConfigAgreement: see ruleInitOrder.
+func (c *Ctx) bufConfigAgreement(p *Parser, init *ssa.Function, setDef *ssa.Call, key string) {
+	fi := c.info(init)
+	bcT := c.namedType(c.lz, "BufConfig")
+	if bcT == nil {
+		return
+	}
+	// calls in init (or one level down: the dictionary's init) of a function taking a BufConfig value
+	var bufInit *ssa.Call
+	for _, b := range init.Blocks {
+		for _, in := range b.Instrs {
+			call, ok := in.(*ssa.Call)
+			if !ok || call.Call.StaticCallee() == nil {
+				continue
+			}
+			for _, a := range call.Call.Args {
+				if types.Identical(a.Type(), bcT) {
+					bufInit = call
+				}
+			}
+		}
+	}
+	if bufInit == nil {
+		c.fail(key+":buffer-config", init.Pos(), "init never hands a BufConfig to the buffer")
+		return
+	}
+	// the BufConfig argument: produced by a call that reads the config value; is that call after SetDefaults?
+	var arg ssa.Value
+	for _, a := range bufInit.Call.Args {
+		if types.Identical(a.Type(), bcT) {
+			arg = a
+		}
+	}
+	src, _ := arg.(*ssa.Call)
+	after := src != nil && fi.instrReaches(setDef, src) && !fi.instrReaches(src, setDef)
+	if after {
+		c.ok(key+":buffer-config", bufInit.Pos(), "the buffer is initialised from the configuration after SetDefaults")
+		return
+	}
+	// derived before SetDefaults: the config's SetDefaults must not set buffer fields itself
+	sd := setDef.Call.StaticCallee()
+	direct := ""
+	if sd != nil {
+		for _, b := range sd.Blocks {
+			for _, in := range b.Instrs {
+				st, ok := in.(*ssa.Store)
+				if !ok {
+					continue
+				}
+				fa, ok := st.Addr.(*ssa.FieldAddr)
+				if !ok {
+					continue
+				}
+				if pt, ok := fa.X.Type().Underlying().(*types.Pointer); ok && types.Identical(pt.Elem(), bcT) {
+					direct = c.pos(st.Pos())
+				}
+			}
+		}
+	}
+	c.check(direct == "", key+":buffer-config", bufInit.Pos(), "the buffer is initialised from the raw configuration, and the config's SetDefaults only passes the buffer fields through BufConfig.SetDefaults: both completions agree",
+		"init hands the buffer a BufConfig derived BEFORE SetDefaults, while "+p.Cfg.Obj().Name()+".SetDefaults sets a buffer field itself (at "+direct+"): the buffer runs with other sizes than ParserConfig() reports, so a parser recreated from the reported configuration behaves differently")
 }
